@@ -23,6 +23,7 @@ RLIMIT = 20
 
 SPEC = r'''
 use core::time::Duration;
+use core::cmp::{max, min};
 // ---- assumed model of lru_time_cache::LruCache (external crate)
 pub struct LruCache<K, V> { pub k: Ghost<Seq<K>>, pub v: Ghost<Seq<V>> }
 pub uninterp spec fn cache_expiry<K, V>(c: LruCache<K, V>) -> Duration;
@@ -77,6 +78,14 @@ pub assume_specification [Duration::as_secs] (d: &Duration) -> (r: u64)
     ensures r as nat == duration_nanos(*d) / 1000000000;
 pub assume_specification [Duration::as_millis] (d: &Duration) -> (r: u128)
     ensures r as nat == duration_nanos(*d) / 1000000;
+// core::cmp::max / min (std): by the type's total order - for Duration that is the order of lengths
+pub uninterp spec fn ord_ge<T>(a: T, b: T) -> bool;
+pub assume_specification<T: Ord> [core::cmp::max] (a: T, b: T) -> (r: T)
+    ensures r == (if ord_ge(b, a) { b } else { a });
+pub assume_specification<T: Ord> [core::cmp::min] (a: T, b: T) -> (r: T)
+    ensures r == (if ord_ge(b, a) { a } else { b });
+pub broadcast axiom fn axiom_duration_order(a: Duration, b: Duration)
+    ensures #[trigger] ord_ge(a, b) == (duration_nanos(a) >= duration_nanos(b));
 // two durations with the same length are the same value
 pub broadcast axiom fn axiom_duration_ext(a: Duration, b: Duration)
     ensures #[trigger] duration_nanos(a) == #[trigger] duration_nanos(b) ==> a == b;
